@@ -18,6 +18,10 @@ fn main() {
     if args.len() >= 3 && args[1] == "--worker" {
         worker::worker_main(&args[2]);
     }
+    if args.len() >= 2 && args[1] == "debug-c06" {
+        props::c06::debug();
+        return;
+    }
     if args.len() < 3 {
         eprintln!("usage: gverif <PROPERTY> <quick|thorough>");
         std::process::exit(2);
@@ -36,6 +40,7 @@ fn main() {
         "C03" => props::c03::run(tier),
         "C04" => props::c04::run(tier),
         "C05" => props::c05::run(tier),
+        "C06" => props::c06::run(tier),
         "C07" => props::c07::run(tier),
         "C08" => props::c08::run(tier),
         "C09" => props::c09::run(tier),
